@@ -215,6 +215,7 @@ func scenarios(w string, r *simctl.Rand, thorough bool) []scenario {
 	// ... and when ALL of them do, the item's Q-values stay uniform: only the
 	// pass-count criterion can reject it, at any pass count down to 0
 	add("overlapping-never-passes-uniform-q", ItemDirective{Item: 3, PassCount: 0, P2Only: true})
+	add("overlapping-second-q-in-one-bin", ItemDirective{Item: 3, PassCount: -1, Q2Bin: 1 + r.Intn(10)})
 	add("overlapping-few-passes-uniform-q", ItemDirective{Item: 3, PassCount: r.Intn(th), P2Only: true})
 	add("overlapping-threshold-1", ItemDirective{Item: 3, PassCount: th - 1})
 	add("overlapping-threshold", ItemDirective{Item: 3, PassCount: th})
@@ -413,6 +414,9 @@ func Plan(prop, tier string, seed uint64) []RunConfig {
 					}
 					if r.Intn(4) == 0 {
 						c.Prelude = detPrelude(w, r)
+					} else if r.Intn(12) == 0 {
+						// the same detection was just run on exactly the same stream
+						c.Prelude = []PreludeSpec{{Workflow: w, Stream: c.Stream}}
 					}
 					if r.Intn(5) == 0 {
 						genCarrier(&c, r, false)
@@ -1058,6 +1062,13 @@ func singleCase(prop string, nb int, r *simctl.Rand) RunConfig {
 		}
 		pk := []string{"prf", "prf", "const"}[r.Intn(3)]
 		c.Prelude = []PreludeSpec{{Workflow: WSingle, NumByte: pn, Stream: StreamSpec{Kind: pk, Seed: r.Uint64(), Byte: r.Intn(256)}}}
+	}
+	if r.Intn(9) == 0 {
+		// the previous call - on another source object - received exactly the
+		// same sample (a replayed capture, a second look at the same data): the
+		// verdict is a function of the bytes, not of what came before
+		c.Prelude = []PreludeSpec{{Workflow: WSingle, NumByte: nb, Stream: c.Stream}}
+		c.Note = "same-sample-as-the-previous-call"
 	}
 	if st.Kind != "const" && st.Kind != "periodic" && r.Intn(8) == 0 {
 		genCarrier(&c, r, false)
